@@ -346,6 +346,7 @@ def run(c, chk):
 
     # ---- R11.14 / R11.15: what stands behind a qualifier, and behind the last separator
     step_boundaries(c, chk, ex, sec)
+    case_folding_by_flag(c, chk)
 
     # ---- R11.13: the name looked up for a step is the whole step
     whole_step_looked_up(c, chk, ex, sec)
@@ -516,6 +517,59 @@ def step_loop(c, secf):
             cands.sort(key=lambda h: -len(loops[h]))
             return g, cands[0]
     raise report.Broken('cfg_getopt_secidx(): step loop not found')
+
+
+def case_folding_by_flag(c, chk, rid='R11.16'):
+    """R11.16: names (and titles) match exactly unless the context was made case-insensitive: a case-folding comparison of two
+    run-time strings lies only on paths that have tested the CFGF_NOCASE bit of a flag word and found it set - not "some flag is set",
+    not a whole flag word passed where a yes/no was meant"""
+    chk.rule(rid, 'a case-folding comparison of a name or title is reached only after the CFGF_NOCASE bit itself was tested and found set')
+    bit = None
+    for en in c.confuse.enums.values():
+        if 'CFGF_NOCASE' in en:
+            bit = en['CFGF_NOCASE']
+    if bit is None:
+        bit = 4          # confuse.h: #define CFGF_NOCASE (1 << 2) (a macro: not in the debug information)
+    FOLD = ('strcasecmp', 'strncasecmp')
+    todo = set()
+    for f in c.confuse.funcs.values():
+        if any(True for n in FOLD for _ in f.calls(n)):
+            todo |= set(c.owners(f.name))
+    ex = sym.Explorer(c.modules, max_visits=2, mod_sets=c.mod_sets, max_paths=200000)
+    n = 0
+    bad = None
+    for name in sorted(todo):
+        f = c.func(name)
+        if f is None or f.name in FOLD:
+            continue
+        for p in ex.explore(f):
+            for e in p.events:
+                if e.kind != 'call' or e.name not in FOLD or any(a[0] == 'str' for a in e.args[:2]):
+                    continue          # (a comparison with a literal word - the boolean words - is case-insensitive by definition)
+                n += 1
+                ok = False
+                for cn, t, _ in p.assume[:e.seq] if hasattr(e, 'seq') else p.assume:
+                    if cn[0] == 'icmp' and cn[1] in ('eq', 'ne') and sym.C0 in (cn[2], cn[3]) and ((cn[1] == 'ne') == t):
+                        other = cn[2] if cn[3] == sym.C0 else cn[3]
+                        while other[0] == 'bin' and other[1] in ('sext', 'zext', 'trunc'):
+                            other = other[2]
+                        if other[0] == 'bin' and other[1] == 'and' and any(sym.is_const(x) and x[1] == bit for x in other[2:4]):
+                            ok = True
+                    # is_set() written as (flags & bit) == bit
+                    if cn[0] == 'icmp' and cn[1] in ('eq', 'ne') and ((cn[1] == 'eq') == t) and any(sym.is_const(x) and x[1] == bit for x in cn[2:4]):
+                        other = cn[2] if sym.is_const(cn[3]) else cn[3]
+                        if other[0] == 'bin' and other[1] == 'and' and any(sym.is_const(x) and x[1] == bit for x in other[2:4]):
+                            ok = True
+                if not ok and bad is None:
+                    bad = (f, p, e)
+    if bad is not None:
+        f, p, e = bad
+        chk.fail(rid, 'fold-without-flag:%s' % f.name, c.where(e.ins), '%s() compares %s and %s with %s() on a path that has not tested the CFGF_NOCASE bit (%s): the step matches a name '
+                 'spelled in another case although the context is case-sensitive, where walking the tree level by level does not'
+                 % (f.name, sym.render(e.args[0]), sym.render(e.args[1]), e.name, fp.cond_text(p, 4)))
+    else:
+        chk.ok(rid, '%d case-folding comparisons on the paths of %s' % (n, ', '.join(sorted(todo))), 'each lies behind a test of the CFGF_NOCASE bit')
+    chk.floor('%s case-folding comparisons' % rid, n, 3)
 
 
 _PB = {}
